@@ -69,6 +69,7 @@ def write_if_changed(path, content):
 TRANSLATORS = {
     # gen file : (script, [source paths relative to /repo])
     "WireGen.v": ("tr/wire.py", ["varlink/src/lib.rs"]),
+    "SetGen.v": ("tr/set.py", ["varlink/src/lib.rs"]),
 }
 
 
@@ -324,6 +325,18 @@ class Check:
         self.trusted = []
         self.rule = ""
         self.extra = {}
+
+    def known_class(self, cls):
+        """a failing case that falls in a class listed in KNOWN_FINDINGS.txt: reported, not a violation;
+        a class not listed there is a violation"""
+        for k in known_findings():
+            if k["property"] == self.pid and k["cls"] == cls:
+                msg = "class=%s %s" % (cls, k["text"])
+                if msg not in self.known:
+                    self.known.append(msg)
+                return True
+        self.failures.append({"what": "failure in class %s, which is not a listed known finding" % cls})
+        return False
 
     def count(self, key, n=1):
         self.hist[key] = self.hist.get(key, 0) + n
